@@ -37,7 +37,8 @@ type Op struct {
 	Status string `json:"status,omitempty"` // setver: Enabled | Suspended
 	PartN  int    `json:"partN,omitempty"`
 	Parts  []Part `json:"parts,omitempty"`
-	// Via: "" = HTTP PUT etc.; "api" = direct Backend call; "post" = browser form upload
+	// Via: "" = HTTP PUT etc.; "api" = direct Backend call; "post" = browser form upload;
+	// part: "bad-md5" = sent with the Content-MD5 of other bytes
 	Via string `json:"via,omitempty"`
 }
 
@@ -54,6 +55,9 @@ func (o Op) String() string {
 	case "getver", "headver", "delver":
 		return fmt.Sprintf("%s %s/%s ref=%d", o.K, o.B, o.Key, o.Ref)
 	case "part":
+		if o.Via != "" {
+			return fmt.Sprintf("part up#%d n=%d (%d bytes, %s)", o.Ref, o.PartN, len(o.Body), o.Via)
+		}
 		return fmt.Sprintf("part up#%d n=%d (%d bytes)", o.Ref, o.PartN, len(o.Body))
 	case "complete":
 		return fmt.Sprintf("complete up#%d %v", o.Ref, o.Parts)
